@@ -26,7 +26,9 @@ GARBAGE_APPENDED = ['4c%%', '=1x', '*clefG9', '4cc#4%', '=1||x', '2.r%', '*M4/4x
 BUILDER_RAISES = ['8rJ', '2r[', 'r]', '2r;]', '4r_', '4rL', 'z2r[', '4r/']
 # characters the lexer cannot tokenise at all (control characters, non-ASCII), at the start, inside and at the end
 NONASCII = ['4f\u266f', '4\u00a0f#', '\u00bf4E', '4a\x7fL', '4c\u266d', '\u00e9', '\u65e54c', '4c\x01', '\x1b4c']
-MALFORMED = UNKNOWN + WRONG_ORDER + TRUNCATED + GARBAGE_APPENDED + BUILDER_RAISES + NONASCII
+# a token truncated to nothing: an empty cell (two tabs in a row, a trailing tab) is an error in a spine of ANY type
+EMPTY = ['']
+MALFORMED = UNKNOWN + WRONG_ORDER + TRUNCATED + GARBAGE_APPENDED + BUILDER_RAISES + NONASCII + EMPTY + EMPTY
 # malformed by construction (an unknown character, a wrong order, a truncation that is no token): a kern spine MUST
 # report these, whatever the recogniser of the tree under test says.  (The others are a valid token followed by
 # garbage, which kernpy accepts and shortens - finding K7 - so for them the recogniser's own verdict is used.)
@@ -87,6 +89,8 @@ def damage(rng, g, k):
         for ci, c in enumerate(payload):
             if (li, ci) in chosen:
                 m = rng.choice(MALFORMED)
+                while m == '' and len(payload) == 1:
+                    m = rng.choice(MALFORMED)       # an empty single-cell line is a blank line, not a cell
                 cells.append(m)
                 placed.append((lineno, ci, m, c.htype))
             else:
@@ -114,7 +118,7 @@ def doc_worker(kp, job):
     ref, rerrs = kp.loads(clean)
     w = {'text': text, 'malformed': placed}
     # expected errors: malformed cells in kern-parsed spines that the recogniser rejects (one each, with the line number)
-    exp = [(ln, m) for ln, ci, m, ht in placed if ht in ('**kern', '**root') and (m in MUST_REJECT or docs.kern_rejects(kp, m))]
+    exp = [(ln, m) for ln, ci, m, ht in placed if m == '' or (ht in ('**kern', '**root') and (m in MUST_REJECT or docs.kern_rejects(kp, m)))]
     base = [(e.line, e.encoding) for e in rerrs]
     got = [(e.line, e.encoding) for e in errs]
     if base:
